@@ -201,6 +201,21 @@ def sample_records(j, n=3):
     return None
 
 
+# anti-vacuity: event kinds ("op:result variant") that a run of the property must have exercised on the implementation
+REQUIRED_EVENTS = {
+    'C12': ['put:Put', 'put:Update', 'put:Evicted', 'put:EvictedAndUpdate', 'put_protected:Put', 'peek_or_put:b=Put', 'contains_or_put:b=Evicted'],
+    'C13': ['peek:Some', 'peek:None', 'contains:Bool', 'peek_lru:SomeKV', 'peek_end:SomeKV', 'len:Int'],
+    'C15': ['cb:nonempty', 'purge:Unit', 'resize:Int', 'remove:Some', 'remove_lru:SomeKV', 'put:Evicted', 'put:Update'],
+    'C06': ['get_lru:SomeKV', 'resize:Int', 'put:Evicted', 'remove_lru:SomeKV', 'peek_mut_or_put:b=Evicted'],
+    'C07': ['put_protected:Update', 'put_protected:Evicted', 'put:Evicted', 'get:Some', 'remove_lru_from:SomeKV'],
+    'C08': ['put:EvictedAndUpdate', 'put:Evicted', 'put:Update', 'get:Some', 'remove:Some'],
+    'C09': ['put:Update', 'put:Put', 'get:Some', 'remove:Some'],
+    'C10': ['put:Evicted', 'put:Update', 'put:Put', 'get:Some', 'get:None', 'get_mut:Some'],
+    'C18': ['fault:hash', 'fault:eq', 'fault:clone', 'fault:drop', 'fault:hasher', 'fault:cb', 'fault:keyhasher', 'clone_drop:Panic'],
+    'C04': ['drop:?', 'purge:Unit', 'put:Evicted', 'put:EvictedAndUpdate', 'remove:Some'],
+}
+
+
 def finish(prop, tier, seed, jobs, viols, t0, work, proofs=None):
     new = []
     for d in viols:
@@ -218,6 +233,9 @@ def finish(prop, tier, seed, jobs, viols, t0, work, proofs=None):
     for j in jobs:
         for k, v in ((j['exec']['stats'] or {}).get('by_kind') or {}).items():
             by_kind[k] = by_kind.get(k, 0) + v
+    missing = [k for k in REQUIRED_EVENTS.get(prop, []) if by_kind.get(k, 0) == 0]
+    if missing and not os.environ.get('VERIF_ALLOW_VACUOUS'):
+        raise ToolError('vacuous run of %s: no event of kind(s) %s was exercised on the implementation' % (prop, missing))
     samples = []
     for j in jobs[:3]:
         sr = j.get('samples') or sample_records(j)
